@@ -101,6 +101,7 @@ static struct {
   uint64_t watch_hits;
   uint64_t watch_hits_t[VS_MAX_THREADS];
   uint64_t points_t[VS_MAX_THREADS];
+  uint64_t spins_while_stalled;  // cpu_relax() calls made by the running threads while some thread was held
   int stalled_tid;  // number of threads currently held back by the stall strategy (name kept: >= 0 means "some")
   uint64_t stall_since_t[VS_MAX_THREADS];
   range_t watch[MAX_RANGES];
@@ -394,6 +395,7 @@ static void vs_ctx_switch(void** save_sp, void* load_sp);
 static void finalize_result(int status) {
   vs_res->points = vs.points;
   if (vs.watch_hits) vs_label_add("watch_hits", vs.watch_hits);
+  if (vs.spins_while_stalled) vs_label_add("stall_spins", vs.spins_while_stalled);
   for (int i = 0; i < VS_MAX_THREADS; i++) vs_res->watch_hits_t[i] = vs.watch_hits_t[i];
   for (int i = 0; i < VS_MAX_THREADS; i++) vs_res->points_t[i] = vs.points_t[i];
   uint64_t h = 1469598103934665603ull;
@@ -683,10 +685,13 @@ static vthread_t* pick_highest(void) {
 // release the stalled threads whose time is up (or all of them when 'all' is set)
 static void release_stall_ex(int all) {
   for (int i = 0; i < vs.nth; i++)
-    if (vs.th[i].state == 4 && (all || vs.fair || vs.points - vs.stall_since_t[i] > vs.cfg.stall_len)) {
+    if (vs.th[i].state == 4 && (all || vs.fair || vs.points - vs.stall_since_t[i] > vs.cfg.stall_len || (vs.cfg.stall_spins && (vs.spins_while_stalled > vs.cfg.stall_spins ||
+                                                   // hardly anybody polls: not a busy-wait for the held thread, no point in going on
+                                                   (vs.points - vs.stall_since_t[i] > 2000000 && vs.spins_while_stalled * 64 < vs.points - vs.stall_since_t[i]))))) {
       vs.th[i].state = 1;
       vs.stalled_tid--;
       vs_label_add("stall_released", 1);
+      if (!all && !vs.fair) vs_label_add("stall_expired", 1);  // its time ran out while others were still running
     }
 }
 static void release_stall(void) { release_stall_ex(1); }
@@ -1147,6 +1152,7 @@ int vs_run_inproc(const vs_config_t* cfg, vs_main_fn fn, void* arg) {
   bset_(vs.watch_hits_t, 0, sizeof vs.watch_hits_t);
   bset_(vs.points_t, 0, sizeof vs.points_t);
   vs.stalled_tid = 0;
+  vs.spins_while_stalled = 0;
   if (!vs.cfg.stall_len) vs.cfg.stall_len = 20000;
   vs.n_watch = 0;
   vs.n_stacks = 0;
@@ -1387,11 +1393,16 @@ void __tsan_atomic_signal_fence(int mo) { (void)mo; }
 // ---------------------------------------------------------------------------
 // hooks from the guarded sites in /repo (machine_specific.h)
 static uint64_t spin_calls_t[VS_MAX_THREADS];
+int vs_long_stall_run(void) { return ACTIVE && vs.cfg.stall_spins != 0; }
 uint64_t vs_spin_calls(void) { return ACTIVE && vs.cur ? spin_calls_t[vs.cur->id] : 0; }
 void verif_spin(void) {
   if (!ACTIVE || vs.in_rt) return;
   spin_calls_t[vs.cur->id]++;
+  if (vs.stalled_tid > 0) vs.spins_while_stalled++;
   vs.points++;
+  // long-stall runs: the busy-waiting thread hands over at every 16th poll only (the other threads are mostly idle pollers, and
+  // 2^26 polls have to fit into the run)
+  if (vs.cfg.stall_spins && vs.stalled_tid > 0 && (spin_calls_t[vs.cur->id] & 15)) return;
   forced_yield();
 }
 void verif_dwcas(volatile void* location) {
